@@ -46,7 +46,7 @@ static const scen_t SC[] = {
     { #p "-subtract-single-minus-many", p##_sc_subtract_single_minus_many }, { #p "-inverse", p##_sc_inverse }, \
     { #p "-rect-ops", p##_sc_rect_ops }, { #p "-init-rects-banded", p##_sc_init_rects_banded }, \
     { #p "-init-rects-overlap", p##_sc_init_rects_overlap }, { #p "-init-rects-append", p##_sc_init_rects_append }, \
-    { #p "-init-rects-scattered", p##_sc_init_rects_scattered }, { #p "-intersect-downsize", p##_sc_intersect_downsize }, { #p "-init-from-image", p##_sc_init_from_image }
+    { #p "-init-rects-scattered", p##_sc_init_rects_scattered }, { #p "-intersect-downsize", p##_sc_intersect_downsize }, { #p "-covering-operand-shortcuts", p##_sc_covering_operand }, { #p "-init-from-image", p##_sc_init_from_image }
     REG (r32), REG (r16),
     { "comp-heap-narrow", sc_comp_heap_narrow }, { "comp-heap-narrow-clip3", sc_comp_heap_narrow_clip }, { "comp-heap-wide", sc_comp_heap_wide },
     { "comp-float-store", sc_comp_float_store }, { "comp-float-store-clip3", sc_comp_float_store_clip }, { "comp-wide-by-operator", sc_comp_wide_by_operator },
